@@ -642,7 +642,7 @@ func (e *Engine) solveAll(want func(*Obligation) bool, quickMs, slowMs int, work
 			again = append(again, ob)
 		}
 	}
-	if len(again) > 0 && len(again) <= 6 {
+	if len(again) > 0 && len(again) <= 4 {
 		var awg sync.WaitGroup
 		sem := make(chan struct{}, 2)
 		for _, ob := range again {
@@ -652,7 +652,7 @@ func (e *Engine) solveAll(want func(*Obligation) bool, quickMs, slowMs int, work
 				sem <- struct{}{}
 				defer func() { <-sem }()
 				prev := *ob
-				e.retryOne(owner[ob], ob, slowMs*2, scratch, &mu)
+				e.retryOne(owner[ob], ob, slowMs*3/2, scratch, &mu)
 				mu.Lock()
 				if ob.Status != "discharged" {
 					ob.Status, ob.Solver, ob.Model, ob.Values = prev.Status, prev.Solver, prev.Model, prev.Values
@@ -754,7 +754,7 @@ func (e *Engine) retryOne(lines []Line, ob *Obligation, slowMs int, scratch stri
 					}
 					return "unknown"
 				}
-				budgets := []int{2500, 2500, 2500, 2500, slowMs / 2}
+				budgets := []int{2500, 2500, 2500, slowMs / 4}
 				for attempt, ms := range budgets {
 					qq := q
 					if attempt > 0 {
